@@ -17,7 +17,7 @@ ENV = dict(os.environ, GOFLAGS='-mod=mod', GOPROXY='off', GOSUMDB='off', GOTOOLC
 
 def run(cmd, cwd, timeout=3000):
     try:
-        r = subprocess.run(cmd, cwd=cwd, env=ENV, capture_output=True, text=True, timeout=timeout)
+        r = subprocess.run(cmd, cwd=cwd, env=ENV, capture_output=True, text=True, errors='replace', timeout=timeout)
         return r.returncode, r.stdout + r.stderr
     except subprocess.TimeoutExpired as e:
         return 124, 'TIMEOUT ' + str(e)
